@@ -147,6 +147,16 @@ void free(void *p)
 	__libc_free(p);
 }
 
+void *realloc(void *old, size_t n);
+
+void *reallocarray(void *old, size_t a, size_t b)
+{
+	size_t n;
+	if (__builtin_mul_overflow(a, b, &n))
+		return NULL;
+	return realloc(old, n);
+}
+
 void *realloc(void *old, size_t n)
 {
 	void *p;
